@@ -340,8 +340,8 @@ func init() {
 					}
 					peers := []string{"3", "3rwse", "23ws", "3e"}
 					for k := 0; k < 2; k++ {
-						if k == 1 && m%2 == 1 {
-							continue // every second flag combination against one peer only (budget)
+						if k == 1 && m%4 != 0 {
+							continue // three of four flag combinations against one peer only (budget)
 						}
 						pi := (m + 2*k) % 4
 						if k == 1 {
